@@ -251,6 +251,7 @@ def corpus():
                                     {'path': 'a.py', 'line': 2, 'tag': 's2', 'args': {}, 'conv': False}]},
                                 {'op': 'poll', 'nc': True, 'rt': 0, 'ts': 3, 'hash': 'stray', 'tps': []},
                                 {'op': 'pollFail', 'base': False, 'how': 'garbage'},
+                                {'op': 'pollFail', 'base': False, 'how': 'bad_update'},
                                 {'op': 'poll', 'nc': False, 'rt': 5, 'ts': 4, 'hash': '', 'tps': []}]},
         # failing polls whose exception has no arguments / cannot be rendered, then a good one
         {'kind': 'timer', 'interval': 0.01, 'script': [{'op': 'pollFail', 'base': False, 'how': 'noargs'},
@@ -276,8 +277,8 @@ class ScriptChannel(svcbench.FakeChannel):
         op = self.pending.pop(0)
         if op['op'] == 'poll':
             return ('resp', svcbench.make_response(op))
-        if op.get('how') == 'garbage':
-            return ('resp', None)
+        if op.get('how') in ('garbage', 'bad_update'):
+            return ('resp', svcbench.garbage_response(op.get('how')))
         return ('raise', svcbench.poll_failure(op.get('how')))
 
 
